@@ -97,7 +97,7 @@ def do_check(tier, seed, t0):
     import c19_a3
     a3 = None
     if not viol_lines:
-        a3 = c19_a3.run(tier, seed, BIN, a["environment_seams_consulted_by_the_code"]["env_names_given_seeded_values"])
+        a3 = c19_a3.run(tier, seed, BIN, [x["name"] for x in a["environment_seams_consulted_by_the_code"]["env_names_given_seeded_values"]])
         for v in a3["violations"]:
             if c19_a3.replay_quiet(v["replay"]) != 1:
                 raise Harness("A3 violation %s did not reproduce on replay" % v["replay"])
